@@ -40,7 +40,9 @@ class C14(Prop):
             "covering every public query (resolution, potential prefix, page/link/network queries, both paginations, "
             "hierarchy, counts, metrics, enumerations, trie lookups) with generated arguments: present and absent LRUs, known "
             "and unknown webentity ids, right/partial/wrong prefix lists, valid and arbitrary tokens, all switch values, and (one "
-            "step in four, on-disk) the same index reopened with a SUBSET of its rules and queried below the forgotten anchors; "
+            "step in four, on-disk) the same index reopened with a SUBSET of its rules and queried below the forgotten anchors; at the end "
+            "of each on-disk case the index is also reopened on torn states (block-granularity prefixes of its recorded write log) "
+            "and queried; "
             "SHA-256 and length of both stores before == after each call, whatever it returned or raised. non-trivial = a case "
             "in which some call returned a non-empty answer and some call raised TraphException on a non-empty index; "
             "evidence lists calls per API name.")
@@ -52,6 +54,83 @@ class C14(Prop):
     QUICK = (40, 14)
     THOROUGH = (150, 30)
     ASSUMPTIONS = ["'a single byte' is observed on the raw store contents (file after flush, or the bytearray)"]
+
+    def begin(self, case):
+        # on-disk cases also record their write log, so that TORN states (a program-order prefix of the writes, cut at block
+        # granularity: exactly the states C18 says a crash can leave) can be queried at the end of the case
+        if case.config.backend == "file":
+            from ..crash import Recorder
+            rec = Recorder(case.idx.folder)
+            case.idx.close()
+            case.idx.open(True, dict(case.config.rules))
+            case.state["rec"] = rec
+            case.state["all_rules"] = dict(case.config.rules)
+
+    def after_op(self, case, op, out, pre):
+        if "all_rules" in case.state:
+            case.state["all_rules"].update(case.led.rules)
+
+    def end(self, case):
+        rec = case.state.get("rec")
+        if rec is None:
+            return
+        rec.detach()
+        import shutil
+        import tempfile
+        from ..crash import write_folder
+        from ..ops import scratch_root
+        from ..rules import RULES
+        from ..env import Traph
+        ctx = case.ctx
+        n = len(rec.log)
+        cuts = sorted(set(range(max(0, n - 10), n)) | set(range(2, n, 6)))
+        lrus = sorted(case.led.closure)[:6]
+        scratch = tempfile.mkdtemp(prefix="tv-torn-", dir=scratch_root())
+        try:
+            for k in cuts:
+                trie, link = rec.rebuild(k)
+                if len(trie) % 128 or len(link) % 16 or not trie or not link:
+                    continue
+                write_folder(scratch, trie, link)
+                try:
+                    t = Traph(folder=scratch, overwrite=False, default_webentity_creation_rule=RULES[case.idx.default_rule],
+                              webentity_creation_rules={a: RULES[x] for a, x in case.state["all_rules"].items()})
+                except Exception:
+                    continue
+                try:
+                    def dg():
+                        t.lru_trie_file.flush()
+                        t.link_store_file.flush()
+                        with open(t.lru_trie_path, "rb") as f:
+                            a_ = f.read()
+                        with open(t.link_store_path, "rb") as f:
+                            b_ = f.read()
+                        return hashlib.sha256(a_).hexdigest(), hashlib.sha256(b_).hexdigest(), len(a_), len(b_)
+                    calls = [("count_pages", t.count_pages), ("count_crawled_pages", t.count_crawled_pages),
+                             ("metrics", t.metrics), ("pages_iter", lambda: list(t.pages_iter())),
+                             ("webentity_prefix_iter", lambda: list(t.webentity_prefix_iter())),
+                             ("links_iter", lambda: list(t.links_iter()))]
+                    for q in lrus:
+                        calls += [("retrieve_webentity", lambda q=q: t.retrieve_webentity(q)),
+                                  ("get_potential_prefix", lambda q=q: t.get_potential_prefix(q)),
+                                  ("get_page_links", lambda q=q: t.get_page_links(q))]
+                    for name, fn in calls:
+                        before = dg()
+                        try:
+                            fn()
+                        except Exception as e:
+                            if type(e).__module__.startswith("hypothesis"):
+                                raise
+                        after = dg()
+                        ctx.event("call-on-torn-state:" + name)
+                        if before != after:
+                            ctx.fail("store-modified", "index reopened on the first %d of %d logged writes (a torn state): read-only call %s changed the stores (%d -> %d bytes of trie)"
+                                     % (k, n, name, before[2], after[2]), case)
+                    ctx.extra["torn_states_queried"] += 1
+                finally:
+                    t.close()
+        finally:
+            shutil.rmtree(scratch, ignore_errors=True)
 
     def draw_probes(self, case, data):
         led = case.led
